@@ -3,6 +3,9 @@ read loop/HandshakeContext (every interleaving, any number of closers) + corresp
 client/server connections: Close / fatal alert / close_notify / deadline / ctx cancel placed at every
 step index of a scripted handshake + data phase (1-4 concurrent closers, blocked Read/Write/Handshake
 present), a concurrent stress leg, and the same under the race detector in the thorough tier.
+Round 2: Close on a socket that does not take writes (closeblk), Close / expired deadline while a
+Read or Write runs the implicit Handshake (iclose / idl), the state accessors at every log point of
+the handshake (access), and the key-possession judge of the fatal-alert placements (DTLS 1.3).
 Monitors = the property's statements, evaluated on the implementation trace."""
 import os
 
@@ -18,13 +21,59 @@ CLOSE_CLASS = {"eof", "closed", "netclosed"}
 # regression corpus: the placements that failed before the fixes of F-A (sendCloseNotify / sync.Once)
 # and F-B (Conn.Write maps Canceled-while-closed to ErrConnClosed); they run first and must pass
 CORPUS = ["v12/simul/client/6/1/0/0", "v13/close/client/9/2/1/0",
-          "v13/simul/server/11/3/0/0", "dual13/close/server/12/2/1/0"]
+          "v13/simul/server/11/3/0/0", "dual13/close/server/12/2/1/0",
+          # round 2: F66 (Close during the handshake -> closed class, explicit and implicit caller),
+          # F81 (Close on a socket that does not take writes returns), F25 (DTLS 1.3 fatal alert in the
+          # protected part of the handshake reaches the peer), F73 (ConnectionState at every log point)
+          "v12/close/client/3/1/0/0", "v13/iclose/server/4/1/0/0", "v12/iclose/client/3/1/0/1",
+          "v12/closeblk/client/8/1/0/0", "v13/closeblk/server/13/3/0/0",
+          "v13/fatal/client/6/0/0/0", "dual13/fatal/server/6/0/0/0",
+          "v12/access/client/1000/0/0/0", "v12/access/server/1000/0/0/0"]
 
 SITE_CN2 = "conn.go close / processIncomingPacket (close_notify reply)"
 SIG_CN2 = {"monitor": "close_notify twice",
            "scenario": "application Close racing the read loop's reply to a received close_notify"}
 SITE_W13 = "conn.go Write / internal/handshake/fsm13.go waitPostHandshakeCompletion"
 SIG_W13 = {"monitor": "blocked Write woken by Close with context.Canceled", "version": "1.3"}
+# known finding K-C16-1 (not repaired): Read/Write call c.Handshake() = HandshakeContext(context.Background())
+SITE_DLHS = "conn.go Read / Write (implicit Handshake)"
+SIG_DLHS = {"monitor": "expired deadline does not interrupt a Read/Write blocked in the implicit Handshake"}
+SITE_LIFE = "conn.go lifecycle (Close / read loop / HandshakeContext)"
+
+
+def corpus_reached(r):
+    """the regression placement met the situation it is kept for"""
+    ev = r["sc"]["event"]
+    if r.get("panic"):
+        return False
+    if ev == "simul":
+        return r["held_reply"]
+    if ev == "close":
+        return r["wr_pend_x"] or (r["hs_pend_x"] and not r["est_x"])
+    if ev == "iclose":
+        return r["hs_pend_x"]
+    if ev == "closeblk":
+        return r["sock_blk"]
+    if ev == "fatal":
+        return r["x_keys"] and r["ep_p"] >= 2 and not r["est_x"] and r["delivered"]
+    if ev == "access":
+        return r["acc_calls"] > 0
+    return False
+
+
+def emit(chk, kind, what, rep, o=None):
+    """one monitor kind -> finding with its stable (site, signature)"""
+    if kind == "cn-twice":
+        chk.finding(SITE_CN2, SIG_CN2, "one endpoint put two close_notify records on the wire: " + what, rep)
+    elif kind == "write13":
+        chk.finding(SITE_W13, SIG_W13, what, rep)
+    elif kind == "deadline-hs":
+        chk.finding(SITE_DLHS, SIG_DLHS, what, rep)
+    else:
+        sig = {"monitor": kind}
+        if o is not None and o.get("kind") == "c16":
+            sig.update({"event": o["sc"]["event"], "variant": o["sc"]["variant"]})
+        chk.finding(SITE_LIFE, sig, what, rep)
 
 
 def code(s):
@@ -55,7 +104,7 @@ def replay_of(o, chk, race=False):
 
 def monitors_e2e(o):
     """returns list of (kind, description); kind in panic/deadlock/leak/close-returns/unblock/
-    cn-twice/cn-missing/peer-eof/alert-close/deadline/after/write13"""
+    cn-twice/cn-missing/peer-eof/alert-close/deadline/after/write13/accessor-panic/deadline-hs"""
     out = []
     sc = o["sc"]
     ev = sc["event"]
@@ -72,20 +121,35 @@ def monitors_e2e(o):
         out.append(("leak", "%d goroutine(s) left after Close of both connections" % o["leak"]))
     # Close returns (nil)
     for c in (o.get("close_res") or []):
-        if c != "ok":
+        if c == "stuck" and ev == "closeblk":
+            out.append(("close-returns", "Close() had not returned 6 s after the call: the socket does not take "
+                        "writes and the close_notify write is not bounded"))
+        elif c != "ok":
             out.append(("close-returns", "a concurrent Close() returned class %s" % c))
-    if ev in ("close", "fatal", "simul", "nohs") and o.get("close2_x") not in ("ok",):
+    if ev == "closeblk" and o.get("sock_blk") and o.get("close_ms", 0) > 5500:
+        out.append(("close-returns", "Close() on a socket that does not take writes took %d ms" % o["close_ms"]))
+    # the state accessors never panic, whenever they are called
+    for p in (o.get("acc_panics") or [])[:1]:
+        out.append(("accessor-panic", "ConnectionState()/accessors called while the connection logs (between two "
+                    "steps of a handshake goroutine) panicked: %s (%d such points in this run)"
+                    % (p[:300], len(o["acc_panics"]))))
+    if ev in ("close", "fatal", "simul", "nohs", "closeblk", "iclose") and o.get("close2_x") not in ("ok",):
         out.append(("close-returns", "repeated Close() returned class %s" % o.get("close2_x")))
-    if ev in ("close", "fatal", "simul") and o.get("close_p") not in ("ok",):
+    if ev in ("close", "fatal", "simul", "closeblk", "iclose") and o.get("close_p") not in ("ok",):
         out.append(("close-returns", "peer Close() returned class %s" % o.get("close_p")))
-    closing = ev == "close" or (ev == "simul" and o["delivered"]) or (ev == "fatal" and o["accepted"])
+    closing = ev in ("close", "closeblk", "iclose") or (ev == "simul" and o["delivered"]) or \
+        (ev == "fatal" and o["accepted"])
+    who = ("%s running the implicit Handshake" % o.get("implicit")) if ev in ("iclose", "idl") else \
+        "pending HandshakeContext"
     # blocked calls unblocked with closed/EOF class errors
     if closing:
         if o["hs_pend_x"] and ev != "fatal":
             h = o["hs_x"]
-            # the handshake reports the cancellation caused by Close ("handshake failed: context canceled")
-            if h.startswith("late:") or h == "stuck" or h not in CLOSE_CLASS | {"canceled", "ok"}:
-                out.append(("unblock", "pending HandshakeContext ended with class %s" % h))
+            # a closed / EOF class ("handshake failed: conn is closed" since 83f5bff; the closed socket's
+            # error during version negotiation), not the internal cancellation nobody asked for
+            if h.startswith("late:") or h == "stuck" or h not in CLOSE_CLASS | {"ok"}:
+                out.append(("unblock", "%s was released by Close with class %s%s, not with a closed/EOF error"
+                            % (who, h, " (%s)" % o["texts"].strip(";|")[:80] if o.get("texts") else "")))
         if o["hs_pend_x"] and ev == "fatal" and not o["est_x1"]:
             if o["hs_x"] not in {"alert"} | CLOSE_CLASS:
                 out.append(("unblock", "pending HandshakeContext after fatal alert ended with class %s" % o["hs_x"]))
@@ -97,9 +161,9 @@ def monitors_e2e(o):
                 out.append(("write13", "blocked Write (DTLS 1.3) ended with context.Canceled instead of a closed-class error"))
             elif w not in CLOSE_CLASS:
                 out.append(("unblock", "blocked Write ended with class %s" % w))
-        if sc.get("early") and o["hs_pend_x"]:
+        if ev == "close" and sc.get("early") and o["hs_pend_x"]:
             for nm in ("er_x", "ew_x"):
-                if o.get(nm) in ("ok", "stuck", "", None):
+                if o.get(nm) not in CLOSE_CLASS:
                     out.append(("unblock", "%s issued during the handshake ended with class %s" % (nm, o.get(nm))))
     # close_notify at most once per side
     if o["cn_x_all"] > 1 or o["cn_p_all"] > 1:
@@ -121,6 +185,17 @@ def monitors_e2e(o):
             out.append(("alert-close", "authenticated fatal alert did not close the connection"))
         elif o["rd_pend_x"] and o["rd_x"] not in CLOSE_CLASS:
             out.append(("alert-close", "blocked Read after fatal alert ended with class %s" % o["rd_x"]))
+    # ... also during the handshake: a DTLS 1.3 peer that sends a fatal alert under a protected epoch whose
+    # read keys X holds (records of that epoch are accepted: epoch <= X's remote epoch) must reach X
+    if ev == "fatal" and is13(sc["variant"]) and not sc.get("wblock") and o.get("x_keys") and o["delivered"] \
+            and not o["closed_x0"] and not o["accepted"] and o["hs_x"] != "alert":
+        out.append(("alert-close", "the peer's fatal alert, sent under epoch %d whose read keys this endpoint holds, "
+                    "never arrived: the connection stayed open (handshake result %s, %d record(s) of the peer "
+                    "could not be opened)" % (o.get("ep_p", -1), o["hs_x"], o.get("und_p", 0))))
+    # a deadline interrupts a Read/Write blocked in the implicit Handshake (known finding K-C16-1)
+    if ev == "idl" and o["hs_pend_x"] and not o["closed_x0"] and o.get("dl_hs_x") != "deadline":
+        out.append(("deadline-hs", "%s blocked in the implicit Handshake() was not interrupted by its expired "
+                    "deadline: 100 ms later the call is %s" % (o.get("implicit"), o.get("dl_hs_x"))))
     # deadlines interrupt blocked calls and leave the connection usable
     if ev == "deadline" and o["est_x"] and o["est_p"]:
         if o["rd_pend_x"] and o["rd_x"] != "deadline":
@@ -178,7 +253,7 @@ def model_case(o):
     """normalise an observation to the scenario language of Life/C16Run.v; None = outside the model"""
     sc = o["sc"]
     ev = sc["event"]
-    if o.get("panic") or o["closed_x0"] or ev == "none":
+    if o.get("panic") or o["closed_x0"] or ev in ("none", "access"):
         return None
     v13 = is13(sc["variant"])
     neg = o["neg_x"]
@@ -189,7 +264,8 @@ def model_case(o):
     rd_pend, wr_pend = o["rd_pend_x"], o["wr_pend_x"]
     close_res = [code(c) for c in (o.get("close_res") or [])]
     hs_c = code(o["hs_x"])
-    evn = {"close": 0, "fatal": 1, "deadline": 2, "hsctx": 3, "simul": 4, "nohs": 5}[ev]
+    evn = {"close": 0, "fatal": 1, "deadline": 2, "hsctx": 3, "simul": 4, "nohs": 5,
+           "closeblk": 7 if o.get("sock_blk") else 0, "iclose": 0, "idl": 2}[ev]
     if ev == "simul":
         if not (o["held_reply"] and est):
             return None
@@ -218,7 +294,9 @@ def model_case(o):
         hs_pend, est, neg = False, False, False   # the Handshake call comes after the Close (ev 5)
     if ev == "hsctx":
         rd_pend = wr_pend = False   # a cancelled Handshake context does not concern Read/Write
-    if ev in ("deadline", "hsctx") and hs_pend and o["hs_x"].startswith("late:"):
+    if ev == "idl":
+        rd_pend = wr_pend = False   # the only call of X is the handshake caller
+    if ev in ("deadline", "hsctx", "idl") and hs_pend and o["hs_x"].startswith("late:"):
         hs_c = 9
     closed_x = o["closed_x"]
     term = "((%s, %s, %s, %s, %s, %s), (%s, %s), (%s, %s, %s, %s), (%s, %s), (%s, %s, %s))" % (
@@ -227,9 +305,10 @@ def model_case(o):
         clist([cN(c) for c in close_res]), cN(hs_c), cN(code(o.get("rd_x") or "")), cN(code(o.get("wr_x") or "")),
         cN(o["cn_x"]), cbool(closed_x),
         cN(code(o.get("close2_x") or "")), cN(code(o.get("wr_aft_x") or "")), cN(code(o.get("rd_aft_x") or "")))
-    nontrivial = ev in ("close", "simul", "nohs") or (ev == "fatal" and o["accepted"]) or \
-        (ev == "deadline" and (rd_pend or wr_pend)) or (ev == "hsctx" and hs_pend)
-    key = (evn, v13, neg, hs_pend, est, closers, rd_pend, wr_pend, sc.get("early", False))
+    nontrivial = ev in ("close", "simul", "nohs", "closeblk", "iclose") or (ev == "fatal" and o["accepted"]) or \
+        (ev == "deadline" and (rd_pend or wr_pend)) or (ev in ("hsctx", "idl") and hs_pend)
+    key = (evn, v13, neg, hs_pend, est, closers, rd_pend, wr_pend, sc.get("early", False),
+           ev if ev in ("iclose", "idl", "closeblk") else "")
     return term, nontrivial, key
 
 
@@ -276,15 +355,7 @@ def replay(chk, path):
         chk.broken("replay run failed", o)
     for r in rows:
         for kind, what in monitors_e2e(r):
-            if kind == "cn-twice":
-                chk.finding(SITE_CN2, SIG_CN2, "one endpoint put two close_notify records on the wire: " + what,
-                            replay_of(r, chk, race))
-            elif kind == "write13":
-                chk.finding(SITE_W13, SIG_W13, what, replay_of(r, chk, race))
-            else:
-                chk.finding("conn.go lifecycle (Close / read loop / HandshakeContext)",
-                            {"monitor": kind, "event": r["sc"]["event"], "variant": r["sc"]["variant"]}, what,
-                            replay_of(r, chk, race))
+            emit(chk, kind, what, replay_of(r, chk, race), r)
         chk.count("replay", 1, [sc_key(r["sc"])])
     chk.finish(level="proof", rule="replay of one scenario")
 
@@ -317,17 +388,9 @@ def run(chk):
             {"how": "TestVerifC16Stress iteration (concurrent Read/Write/Close/deadline setters/accessors on "
                     "both endpoints, eager network)", "observation": {k: v for k, v in o.items() if k != "leak_info"},
              "rerun_check": "VERIF_SEED=%d bin/check C16 --tier %s" % (chk.seed, chk.tier)}
-        if kind == "cn-twice":
-            chk.finding(SITE_CN2, SIG_CN2, "one endpoint put two close_notify records on the wire: " + what, rep)
-        elif kind == "write13":
-            chk.finding(SITE_W13, SIG_W13, what, rep)
-        else:
-            sig = {"monitor": kind}
-            if o.get("kind") == "c16":
-                sig.update({"event": o["sc"]["event"], "variant": o["sc"]["variant"]})
-            if o.get("leak_info"):
-                rep["goroutines"] = o["leak_info"][:3000]
-            chk.finding("conn.go lifecycle (Close / read loop / HandshakeContext)", sig, what, rep)
+        if o.get("leak_info") and kind not in ("cn-twice", "write13", "deadline-hs"):
+            rep["goroutines"] = o["leak_info"][:3000]
+        emit(chk, kind, what, rep, o)
 
     all_e2e = []
     for name, test, e2, race, tmo in legs:
@@ -368,8 +431,7 @@ def run(chk):
         e2e = [r for r in obs if r["kind"] == "c16"]
         st = [r for r in obs if r["kind"] == "stress"]
         if name == "corpus":
-            reached = [r for r in e2e if (r["sc"]["event"] == "simul" and r["held_reply"]) or
-                       (r["sc"]["event"] == "close" and r["wr_pend_x"])]
+            reached = [r for r in e2e if corpus_reached(r)]
             if len(e2e) != len(CORPUS) or len(reached) != len(CORPUS):
                 chk.broken("regression corpus: %d of %d scenarios ran, %d reached their placement"
                            % (len(e2e), len(CORPUS), len(reached)), o)
@@ -383,9 +445,19 @@ def run(chk):
             byev = {}
             for r in e2e:
                 byev[r["sc"]["event"]] = byev.get(r["sc"]["event"], 0) + 1
+            r2 = {"closeblk_socket_blocked": sum(1 for r in e2e if r.get("sock_blk")),
+                  "implicit_close_pending": sum(1 for r in e2e if r["sc"]["event"] == "iclose" and r.get("hs_pend_x")),
+                  "implicit_deadline_pending": sum(1 for r in e2e if r["sc"]["event"] == "idl" and r.get("hs_pend_x")),
+                  "accessor_calls": sum(r.get("acc_calls", 0) for r in e2e),
+                  "alerts_judged_by_key_possession": sum(1 for r in e2e if r["sc"]["event"] == "fatal" and
+                                                         r.get("x_keys") and not r["sc"].get("wblock") and
+                                                         not r.get("est_x") and r.get("ep_p", 0) >= 2)}
             chk.leg_info(name, events=byev, race=race, variants=sorted({r["sc"]["variant"] for r in e2e}),
                          max_closers=max([r["sc"]["closers"] for r in e2e] or [0]),
-                         undecryptable_runs=sum(1 for r in e2e if r.get("und")))
+                         undecryptable_runs=sum(1 for r in e2e if r.get("und")), round2=r2)
+            if name != "corpus" and rc == 0 and not all(r2.values()):
+                chk.broken("e2e leg: a round-2 placement no longer reaches its situation (%s)"
+                           % ", ".join(k for k, v in r2.items() if not v), o)
         if st and any(r.get("setup") for r in st):
             bad_setup = [r for r in st if r.get("setup")]
             chk.broken("stress leg: the plain handshake failed in %d of %d iterations (%s)"
@@ -453,13 +525,21 @@ def run(chk):
             chk.broken("proof obligation Properties/C16.v no longer checks (%s)" % where, out)
     chk.finish(
         level="proof",
-        rule="corpus: the former failing placements of the two fixed findings (two close_notify records; DTLS 1.3 "
-             "Write woken with context.Canceled) run first and must pass. e2e: one run per (variant in v12/v12psk/v13/dual-stack client->1.2/1.2->dual-stack server/dual-stack->1.3, "
+        rule="corpus: the former failing placements of the fixed findings (two close_notify records; DTLS 1.3 "
+             "Write woken with context.Canceled; round 2: Close during the handshake released the caller with "
+             "context.Canceled, Close blocked for ever behind a blocked close_notify write, a DTLS 1.3 fatal alert of the "
+             "protected handshake part never arrived, ConnectionState panicked during the epoch switch) run first, "
+             "must reach their situation and must pass. e2e: one run per (variant in v12/v12psk/v13/dual-stack client->1.2/1.2->dual-stack server/dual-stack->1.3, "
              "side, step index k = datagram deliveries of the scripted handshake+data phase, event): Close with 1-4 "
              "concurrent callers (also with a Write blocked in the socket, and with Read+Write issued during the "
              "handshake), fatal alert from the peer, SetDeadline in the past with blocked Read/Write, cancelled "
              "Handshake context, Close placed between the read loop's close_notify reply and its close(false), Close "
-             "before Handshake. Observables: result class of every call, decrypted close_notify/fatal records per side, "
+             "before Handshake; round 2: Close (1 and 3 callers) of an established connection whose socket does not "
+             "take writes (must return within 5.5 s of virtual time, model: no record), Close / SetDeadline in the past "
+             "while a Read or a Write of X runs the implicit Handshake at every handshake step (the latter is known "
+             "finding K-C16-1), the state accessors called at every log point of X during the whole script, and for "
+             "the fatal placements of DTLS 1.3 the judge 'X holds the read keys of the epoch the alert was sent under "
+             "=> the alert closes X'. Observables: result class of every call, decrypted close_notify/fatal records per side, "
              "goroutines after teardown, synctest deadlock/leak panics. stress: concurrent Read/Write/Close/deadline "
              "setters/accessors on both endpoints. Non-trivial = an event is injected; distinct by scenario tuple "
              "(model legs: by model scenario class). thorough adds -race runs (e2e x10, stress 2000 iterations).",
@@ -469,6 +549,9 @@ def run(chk):
             "the code by the correspondence legs only",
             "data-race freedom, goroutine-leak freedom and deadlock freedom of the real scheduler are NOT proved: "
             "race detector, goroutine accounting and synctest deadlock detection over the explored schedules only",
-            "model environment assumptions: the handshake FSM goroutine leaves when its context is cancelled; a "
-            "socket write does not block for ever; one HandshakeContext attempt per connection",
+            "model environment assumptions: the handshake FSM goroutine leaves when its context is cancelled; "
+            "application-data and flight writes do not block for ever (the close_notify writes may: Env EWrBlock); "
+            "one HandshakeContext attempt per connection",
+            "known gap K-C16-1 (C16_deadline_wakes_handshake_refuted): deadlines do not interrupt a Read/Write "
+            "blocked in the implicit Handshake()",
         ])
